@@ -1054,7 +1054,7 @@ func run(r *eng.Runner) {
 		do("pluralize", v, ps("y,ies"))
 	}
 	grid := []univ.M{univ.Nil(), univ.Str(""), univ.Str("a"), univ.Int(0), univ.Int(1), univ.Bool(false), univ.Bool(true), univ.Float(0), univ.Float(2.5), univ.Ints(), univ.Ints(1),
-		univ.Float(0.5), univ.Float(-0.25), univ.Float(1e-9), {K: "float32", F: 0.75}, univ.Int(-1), {K: "uint8", U: 0}, {K: "uint8", U: 3}}
+		univ.Float(0.5), univ.Float(-0.25), univ.Float(1e-9), {K: "float32", F: 0.75}, univ.Int(-1), {K: "uint8", U: 0}, {K: "uint8", U: 3}, univ.NilPtr("int"), univ.NilPtr("str"), univ.NilPtr("struct")}
 	for _, v := range grid {
 		do("yesno", v, nil)
 		do("yesno", v, ps("ja,nein,vielleicht"))
